@@ -25,6 +25,7 @@ META = {
         "C09.P1 _on_disconnected (HSMS and SECS-I): thread stop + buffer clear on every path; HSMS also disconnect transition and connected flag; ByteQueue.clear empties under the lock",
         "C09.P2 close sequence order and containment in TcpConnection.__receiver_thread and SerialConnection._receiver_thread_function",
         "C09.P3 zero-length recv sets the loop's stop flag and clears the connected flag; reconnect is re-armed from on_disconnected while enabled",
+        "C09.P4 a new link is taken into service: a readable socket is read (guards, select set, read size, would-block handling); the connect thread reports success only for an established link with receiver, non-blocking socket, connected flag and on_connected, and ends only connected or stopped; the accept thread serves a pending connection and releases the listening socket",
         "C09.D1 every local read in the accept/connect thread functions is definitely assigned",
     ],
     "does_not_decide": ["kernel/socket behaviour", "that a new connection actually selects (C05 covers the handlers)", "timing of the 0.2 s polls"],
@@ -318,6 +319,118 @@ def check_read_loop(ctx):
         ctx.ob("C09.P3", f"{cname}._disconnected", ok, "a lost link restarts accepting/connecting while the connection is enabled" if ok else f"_disconnected does not restart the listener exactly when enabled ({conds})", where=d.where)
 
 
+def _nodes_calling(cfg, pred):
+    return [n for n in cfg.real_nodes() if any(pred(c) for c in n.call_names())]
+
+
+def check_link_taken_into_service(ctx):
+    """A new TCP link is taken into service completely (C09: 'accepts a new connection and selects again'): the data of a
+    readable socket is read, the connecting/accepting thread reports success only for an established link whose receiver
+    runs, keeps trying until then, and the listening socket is released for the next round."""
+    repo = ctx.repo
+    # ---- read loop: nothing but readiness / not-disconnecting stands between a readable socket and recv
+    f = repo.method("TcpConnection", "__receiver_thread_read_data", inherited=False)
+    ctx.touch(f)
+    q = f.qualname
+    cfg = cfg_of(f.node)
+    recvs = [(n, c) for n in cfg.real_nodes() for c in n.calls if (call_name(c) or "").endswith(".recv")]
+    ctx.require(len(recvs) == 1, f"{q}: recv statement not found")
+    rn, rc = recvs[0]
+    sel = [n for n in cfg.real_nodes() if isinstance(n.ast, ast.Assign) and isinstance(n.ast.value, ast.Call) and call_name(n.ast.value) == "select.select"]
+    ctx.require(len(sel) == 1 and isinstance(sel[0].ast.targets[0], ast.Name), f"{q}: select statement not found")
+    sv = sel[0].ast.targets[0].id
+    heads = [n for n in cfg.nodes if n.kind == "test" and n.label == "while"]
+    loop_facts = cnd.canon(heads[0].ast, True) if heads else set()
+    allowed = {(f"{sv}[0]", True), ("self._disconnecting", False)} | loop_facts
+    extra = sorted(cnd.facts(cfg, rn) - allowed)
+    ctx.ob("C09.P4", q, not extra, "a readable socket is read unless the link is being closed" if not extra else
+           f"recv runs only under {cnd.show(set(extra))}: data the peer sent is never read, the select procedure of the new link cannot complete", key="recv-guard", where=f.where)
+    sc = sel[0].ast.value
+    ok = bool(sc.args) and isinstance(sc.args[0], (ast.List, ast.Tuple)) and any(norm(e) in ("self._socket", "self._sock") for e in sc.args[0].elts)
+    ctx.ob("C09.P4", q, ok, "select watches the connection's socket for readability" if ok else f"`{norm(sc)}` does not watch the socket for readability", key="select-reads", where=f.where)
+    known, size = rules.literal(f.node, rc.args[0]) if rc.args else (False, None)
+    ok = known and isinstance(size, int) and not isinstance(size, bool) and size >= 1
+    ctx.ob("C09.P4", q, ok, f"recv asks for {size} bytes at a time" if ok else
+           f"recv size `{norm(rc.args[0]) if rc.args else ''}` is not a positive constant: a zero-sized read returns b'' for a live peer and is taken for its close", key="recv-size", where=f.where)
+    raises = [n for n in cfg.real_nodes() if isinstance(n.ast, ast.Raise)]
+    bad = [n for n in raises if not any(t.startswith("is_errorcode_ewouldblock(") and not pol for t, pol in cnd.facts(cfg, n))]
+    ok = bool(raises) and not bad
+    ctx.ob("C09.P4", q, ok, "a would-block error is ignored, every other socket error ends the read loop" if ok else
+           "the socket-error handler does not re-raise exactly the errors that are not EWOULDBLOCK: a dead link is polled for ever or a momentarily empty socket tears the link down", key="ewouldblock", where=f.where)
+
+    # ---- active side: __connect reports True only for an established link in service
+    c = repo.method("TcpClientConnection", "__connect", inherited=False)
+    ctx.touch(c)
+    q = c.qualname
+    cfg = cfg_of(c.node)
+    rets = [n for n in cfg.real_nodes() if isinstance(n.ast, ast.Return)]
+    conn = _nodes_calling(cfg, lambda x: x.endswith("_socket.connect") or x.endswith("_sock.connect"))
+    ctx.require(len(conn) == 1 and rets, f"{q}: connect statement / returns not found")
+    steps = {
+        "the socket is made non-blocking": [n for n in cfg.real_nodes() if any(x.endswith(".setblocking") for x in n.call_names()) and any(rules.literal(c.node, k.args[0]) in ((True, 0), (True, False)) for k in n.calls if (call_name(k) or "").endswith(".setblocking") and k.args)],
+        "the connected flag is raised": [n for n in cfg.real_nodes() if isinstance(n.ast, ast.Assign) and any(dotted(t) == "self._connected" for t in n.ast.targets) and isinstance(n.ast.value, ast.Constant) and n.ast.value.value is True],
+        "the receiver is started": _nodes_calling(cfg, lambda x: x == "self._start_receiver"),
+        "on_connected is fired": _nodes_calling(cfg, lambda x: x == "self.on_connected"),
+    }
+    handlers = [n for n in cfg.nodes if n.kind == "handler"]
+    for r in rets:
+        known, val = rules.literal(c.node, r.ast.value) if r.ast.value is not None else (True, None)
+        failed = any(cfg.dominates(h, r) for h in handlers if cfg.path_exists(conn[0], h) and not any(cfg.dominates(s, h) for s in steps["the receiver is started"]))
+        if failed:
+            ok = known and not val
+            ctx.ob("C09.P4", q, ok, "a failed connect is reported as failure" if ok else f"the failed-connect path returns `{norm(r.ast.value)}`: the connect loop stops retrying although no link exists", key="failure-value", where=c.where)
+        else:
+            ok = known and val is True
+            ctx.ob("C09.P4", q, ok, "an established link is reported as success" if ok else f"the established-link path returns `{norm(r.ast.value) if r.ast.value is not None else None}`: the connect loop opens a second socket over a live link", key="success-value", where=c.where)
+            for label, nodes in steps.items():
+                ok = bool(nodes) and any(cfg.dominates(n, r) for n in nodes)
+                ctx.ob("C09.P4", q, ok, f"before success is reported {label}" if ok else f"success is reported although not ({label}): the link exists but is not in service (nothing is received / nobody is told)", key="success " + label, where=c.where)
+    # ---- active side: the connect thread ends only connected or stopped
+    t = repo.method("TcpClientConnection", "__connect_thread", inherited=False)
+    ctx.touch(t)
+    q = t.qualname
+    cfg = cfg_of(t.node)
+    ends = [n for n in cfg.real_nodes() if isinstance(n.ast, ast.Return)] + [p for p in cfg.exit.pred if not isinstance(p.ast, ast.Return) and p.kind != "raise"]
+    for e in ends:
+        fs = cnd.facts(cfg, e)
+        stopped = any(re.match(r"^self\.(_TcpClientConnection)?__idle\(.*\)$", x) and not pol for x, pol in fs)
+        connected = any(re.match(r"^self\.(_TcpClientConnection)?__connect\(\)$", x) and pol for x, pol in fs)
+        ok = stopped or connected
+        ctx.ob("C09.P4", q, ok, "the connect thread ends only after a successful connect or a stop request" if ok else
+               f"the connect thread can end under {cnd.show(fs)} - neither connected nor stopped: nothing connects any more", key=f"ends {'return' if isinstance(e.ast, ast.Return) else 'fall-through'} {cnd.show(fs)}", where=t.where)
+    ctx.floor("ends of the connect thread", len(ends), 2)
+
+    # ---- passive side: the accepted socket is taken into service, the listening socket released
+    sfn = repo.method("TcpServerConnection", "__server_thread", inherited=False)
+    ctx.touch(sfn)
+    q = sfn.qualname
+    cfg = cfg_of(sfn.node)
+    acc = [n for n in cfg.real_nodes() if isinstance(n.ast, ast.Assign) and any("self._sock" in norm(x) for x in ast.walk(n.ast.targets[0]) if isinstance(x, ast.Attribute))]
+    ctx.require(len(acc) == 1, f"{q}: the statement that stores the accepted socket was not found")
+    accept_calls = _nodes_calling(cfg, lambda x: x.endswith("_server_sock.accept"))
+    ctx.require(len(accept_calls) == 1, f"{q}: accept statement not found")
+    av = accept_calls[0].ast.targets[0].id if isinstance(accept_calls[0].ast, ast.Assign) and isinstance(accept_calls[0].ast.targets[0], ast.Name) else None
+    sel = [n for n in cfg.real_nodes() if isinstance(n.ast, ast.Assign) and isinstance(n.ast.value, ast.Call) and call_name(n.ast.value) == "select.select"]
+    sv = sel[0].ast.targets[0].id if sel and isinstance(sel[0].ast.targets[0], ast.Name) else None
+    heads = [n for n in cfg.nodes if n.kind == "test" and n.label == "while"]
+    allowed = (cnd.canon(heads[0].ast, True) if heads else set()) | {(f"{sv}[0]", True), (f"{av} is None", False)}
+    extra = sorted(cnd.facts(cfg, acc[0]) - allowed)
+    ctx.ob("C09.P4", q, not extra, "a pending connection is accepted and stored" if not extra else f"the accepted socket is stored only under {cnd.show(set(extra))}: a connecting peer is never served", key="accept-guard", where=sfn.where)
+    after = [n for n in cfg.real_nodes() if isinstance(n.ast, ast.Return) and cfg.dominates(acc[0], n)]
+    ctx.require(bool(after), f"{q}: no return after the accepted socket was stored")
+    steps = {
+        "the socket is made non-blocking": [n for n in cfg.real_nodes() if any(rules.literal(sfn.node, k.args[0]) in ((True, 0), (True, False)) for k in n.calls if (call_name(k) or "").endswith("_socket.setblocking") and k.args)],
+        "the connected flag is raised": [n for n in cfg.real_nodes() if isinstance(n.ast, ast.Assign) and any(dotted(x) == "self._connected" for x in n.ast.targets) and isinstance(n.ast.value, ast.Constant) and n.ast.value.value is True],
+        "the receiver is started": _nodes_calling(cfg, lambda x: x == "self._start_receiver"),
+        "on_connected is fired": _nodes_calling(cfg, lambda x: x == "self.on_connected"),
+        "the listening socket is closed (the next round binds the port again)": _nodes_calling(cfg, lambda x: x == "self._server_sock.close"),
+    }
+    for r in after:
+        for label, nodes in steps.items():
+            ok = bool(nodes) and any(cfg.dominates(n, r) for n in nodes)
+            ctx.ob("C09.P4", q, ok, f"before the accept thread ends {label}" if ok else f"the accept thread ends with a stored socket although not ({label})", key="accepted " + label, where=sfn.where)
+
+
 def check_on_disconnected(ctx):
     repo = ctx.repo
     for cname, extra in (("HsmsProtocol", True), ("SecsIProtocol", False)):
@@ -460,12 +573,80 @@ def check_idle(ctx):
            "__idle can return True without ever examining the stop flag (range(int(t5) * 5) is empty for t5 < 1): a connect loop with a short T5 never sees disable()", key="idle-skips-flag", where=f.where)
 
 
+def check_idle_and_disable(ctx):
+    """The stop-flag handshake seen from both ends: __idle answers False exactly for a stop request and True for an elapsed
+    wait; disable() lowers the enabled flag, raises the stop flag only for a live thread and always disconnects."""
+    repo = ctx.repo
+    f = repo.method("TcpClientConnection", "__idle", inherited=False)
+    cfg = cfg_of(f.node)
+    flag = "self.stop_connection_thread"
+    for r in [n for n in cfg.real_nodes() if isinstance(n.ast, ast.Return)]:
+        known, val = rules.literal(f.node, r.ast.value) if r.ast.value is not None else (True, None)
+        fs = cnd.facts(cfg, r)
+        stop = (flag, True) in fs
+        ok = known and (val is False if stop else val is True) and not ((flag, False) in fs and val is False)
+        ctx.ob("C09.W2", f.qualname, ok, ("a stop request ends the wait with False" if stop else "an elapsed wait answers True") if ok else
+               f"__idle returns `{norm(r.ast.value) if r.ast.value is not None else None}` under {cnd.show(fs) or 'no condition'}: "
+               + ("a stop request is not reported, the connect loop goes on after disable()" if stop else "an elapsed wait is reported as a stop request, the connect loop gives up after one attempt"),
+               key=f"idle-value {'stop' if stop else 'elapsed'}", where=f.where)
+    for cname, enabled, thread, stop_flag in (("TcpClientConnection", "self.enabled", "self.connection_thread", "self.stop_connection_thread"),
+                                              ("TcpServerConnection", "self._enabled", "self._server_thread", "self._stop_server_thread")):
+        d = repo.method(cname, "disable", inherited=False)
+        ctx.touch(d)
+        q = d.qualname
+        cfg = cfg_of(d.node)
+        lowers = [n for n in cfg.real_nodes() if isinstance(n.ast, ast.Assign) and any(dotted(t) == enabled for t in n.ast.targets)]
+        ok = len(lowers) == 1 and rules.literal(d.node, lowers[0].ast.value) == (True, False) and cnd.facts(cfg, lowers[0]) == {(enabled, True)}
+        ctx.ob("C09.W2", q, ok, "disable() of an enabled connection lowers the enabled flag" if ok else
+               "disable() does not lower the enabled flag exactly when it was raised: the link is re-armed after the close (or an enabled connection is never disabled)", key="lowers-enabled", where=d.where)
+        disc = _nodes_calling(cfg, lambda x: x == "self.disconnect")
+        ok = bool(disc) and bool(lowers) and not cfg.path_exists(lowers[0], cfg.exit, avoid=disc, no_exc=True)
+        ctx.ob("C09.W2", q, ok, "disable() always closes the open link" if ok else "there is a path through disable() of an enabled connection that does not call disconnect(): the link stays up, NOT CONNECTED is never reported", key="disconnects", where=d.where)
+        raises = [n for n in cfg.real_nodes() if isinstance(n.ast, ast.Assign) and any(dotted(t) == stop_flag for t in n.ast.targets)]
+        ok = len(raises) == 1 and rules.literal(d.node, raises[0].ast.value) == (True, True) and (f"{thread}.is_alive()", True) in cnd.facts(cfg, raises[0])
+        ctx.ob("C09.W2", q, ok, "the stop flag is raised exactly for a live thread" if ok else
+               f"{stop_flag} is not raised (to True) under `{thread}.is_alive()`: without a live thread nobody lowers it again and disable() spins for ever; with one that is not told to stop, connecting goes on after disable()", key="raises-stop-for-live-thread", where=d.where)
+
+
+def check_socket_lifecycle(ctx):
+    """The socket objects are created before they are used, and the listening socket is bound and listening before the
+    accept loop."""
+    repo = ctx.repo
+    c = repo.method("TcpClientConnection", "__connect", inherited=False)
+    cfg = cfg_of(c.node)
+    made = [n for n in cfg.real_nodes() if isinstance(n.ast, ast.Assign) and any(dotted(t) == "self._sock" for t in n.ast.targets) and isinstance(n.ast.value, ast.Call) and call_name(n.ast.value) == "socket.socket"]
+    uses = [n for n in cfg.real_nodes() if any(x.startswith("self._socket.") or x.startswith("self._sock.") for x in n.call_names())]
+    ok = len(made) == 1 and bool(uses) and all(cfg.dominates(made[0], u) for u in uses)
+    ctx.ob("C09.P4", c.qualname, ok, "every attempt creates a fresh socket before anything is done with it" if ok else
+           "the socket is used before this attempt created it: the first attempt fails with 'not connected', later ones configure the closed socket of the previous link", key="fresh-socket", where=c.where)
+    sfn = repo.method("TcpServerConnection", "__server_thread", inherited=False)
+    cfg = cfg_of(sfn.node)
+    made = [n for n in cfg.real_nodes() if isinstance(n.ast, ast.Assign) and any(dotted(t) == "self._server_sock" for t in n.ast.targets) and isinstance(n.ast.value, ast.Call) and call_name(n.ast.value) == "socket.socket"]
+    bind = _nodes_calling(cfg, lambda x: x == "self._server_sock.bind")
+    listen = _nodes_calling(cfg, lambda x: x == "self._server_sock.listen")
+    heads = [n for n in cfg.nodes if n.kind == "test" and n.label == "while"]
+    ok = len(made) == 1 and len(bind) == 1 and len(listen) == 1 and bool(heads) and cfg.dominates(made[0], bind[0]) and cfg.dominates(bind[0], listen[0]) and cfg.dominates(listen[0], heads[0])
+    ctx.ob("C09.P4", sfn.qualname, ok, "the listening socket is created, bound and listening before the accept loop" if ok else
+           "the accept loop is entered without socket -> bind -> listen: no peer can connect", key="bind-listen", where=sfn.where)
+    if bind:
+        bc = next(k for k in bind[0].calls if call_name(k) == "self._server_sock.bind")
+        ok = bool(bc.args) and norm(bc.args[0]) == "(self._settings.address, self._settings.port)"
+        ctx.ob("C09.P4", sfn.qualname, ok, "it is bound to the configured address and port" if ok else f"it is bound to `{norm(bc.args[0]) if bc.args else ''}`", key="bind-address", where=sfn.where)
+    acc = [n for n in cfg.real_nodes() if isinstance(n.ast, ast.Assign) and any("self._sock" == norm(x) for x in ast.walk(n.ast.targets[0]) if isinstance(x, ast.Attribute))]
+    uses = [n for n in cfg.real_nodes() if any(x.startswith("self._socket.") for x in n.call_names())] + _nodes_calling(cfg, lambda x: x == "self._start_receiver")
+    ok = len(acc) == 1 and all(cfg.dominates(acc[0], u) for u in uses)
+    ctx.ob("C09.P4", sfn.qualname, ok, "the accepted socket is stored before it is configured and served" if ok else "the accepted socket is configured / served before it is stored", key="accepted-socket-first", where=sfn.where)
+
+
 def run(ctx):
     check_on_disconnected(ctx)
     check_close_sequence(ctx)
     check_read_loop(ctx)
+    check_link_taken_into_service(ctx)
     check_blocking_waits(ctx)
     check_spin_handshakes(ctx)
     check_idle(ctx)
+    check_idle_and_disable(ctx)
+    check_socket_lifecycle(ctx)
     check_definite_assignment(ctx)
     check_dispatcher(ctx, "C09.W3", wakeups=True, consumers=False, threads=("receiver",))
